@@ -31,6 +31,15 @@ TNext ==
              /\ \E b \in Batches : pid[b] = Ev.pid /\ Plan[b].inst = Ev.inst /\ Up(b, Ev.addr) /\ crt' = [crt EXCEPT ![b] = Ev.cert]
         \/ Ev.e = "Send" /\ Ev.probe /\ Ev.hdr /\ ~clientDead /\ UNCHANGED <<pid, crt>>
              /\ \E b \in Batches : Send(b, Ev.name, Ev.addr, Ev.inst) /\ Ev.cert = crt[b]
+        \* a run with a failing client: the client logs a request when it has read it, the runner moves on as soon as it
+        \* notices the failure - so a request that was written before the batch gave up may be logged after the batch was
+        \* abandoned (even after its server was told to stop).  Such a late Send turns a "never sent" case into a sent one.
+        \/ Ev.e = "Send" /\ CliFault /\ Ev.hdr /\ UNCHANGED <<pid, crt>>
+             /\ \E b \in Batches : /\ Ev.name \in Plan[b].cases /\ Ev.name \notin sent /\ Ev.name \in setupFailed
+                                   /\ srv[b] \in {"up", "stopped", "released"} /\ addr[b] = Ev.addr
+                                   /\ Ev.inst = Plan[b].inst /\ Ev.cert = crt[b]
+             /\ sent' = sent \cup {Ev.name} /\ setupFailed' = setupFailed \ {Ev.name}
+             /\ UNCHANGED <<srv, addr, sem, nextAddr, finished, proc>>
         \/ Ev.e = "Stop" /\ UNCHANGED <<pid, crt>>
              /\ \E b \in Batches : pid[b] = Ev.pid /\ (IF srv[b] = "up" THEN Stop(b) ELSE (srv[b] = "stopped" /\ UNCHANGED vars))
         \/ Ev.e = "Finish" /\ Finish /\ UNCHANGED <<pid, crt>>
